@@ -227,6 +227,7 @@ fn history_labels(d: &Daemon, ca: &str) -> Result<Vec<String>, String> {
 pub fn run_case_daemon(case: &Case) -> Result<Result<Vec<String>, Bad>, String> {
     let mut classes: BTreeSet<String> = BTreeSet::new();
     classes.insert("daemon".into());
+    classes.insert("disk".into());
     hooks::h().new_world_keys(case.key_start as usize);
     let _ = hooks::h().take_exits();
     let cfg = DaemonCfg { admin_token: ADMIN.into(), testbed: true, tcp: true, disk: true, ..Default::default() };
